@@ -197,6 +197,8 @@ def build_msg(variant):
     srcs = ["harness/g4msg_replay.cc",
             os.path.join(ext, "bxdecay0_g4", "primary_generator_action.cc"),
             os.path.join(ext, "bxdecay0_g4", "primary_generator_action_messenger.cc"),
+            os.path.join(ext, "bxdecay0_g4", "unique_point_vertex_generator.cc"),
+            os.path.join(ext, "bxdecay0_g4", "unique_point_vertex_generator_messenger.cc"),
             os.path.join(ext, "bxdecay0_g4", "vertex_generator_interface.cc")]
     for x in srcs[1:]:
         if not os.path.exists(x):
@@ -344,6 +346,57 @@ def messenger_phase(ck, wd, thorough):
     ck.set("messenger_configurations_reached_by_the_code", len(reach))
     ck.set("messenger_command_lines_executed", steps)
     ck.sample({"scenario": "command layer", "commands": [msg_command(*acts[x]) for x in max(reach.values(), key=len)]})
+    vertex_phase(ck, wd, exe, env)
+
+
+def vertex_phase(ck, wd, exe, env):
+    """spec/G4Vertex.tla: /bxdecay0/upvg/vertex on the real point-like vertex generator and its messenger, every (state, command) pair"""
+    dump = os.path.join(wd, "g4vertex")
+    r = vlib.tlc("G4Vertex", "G4Vertex.cfg", dump=dump, workers=2, timeout=300)
+    if r.error:
+        raise vlib.InfraError(r.error)
+    ck.tlc_stats(r, "G4Vertex (vertex command of the point-like vertex generator)")
+    if r.violated:
+        ck.violation("model:G4Vertex:" + r.violated, "G4Vertex.tla violates %s" % r.violated, {"trace": r.trace[-3:]})
+        return
+    g = vlib.parse_dot(dump + ".dot")
+
+    def cmd(name, a):
+        if name == "Vertex":
+            return "/bxdecay0/upvg/vertex %d %d %d%s" % (a[0], a[1], a[2], "" if a[3] == "absent" else " " + a[3])
+        return "/bxdecay0/upvg/vertex 1 2" if name == "Short" else "/bxdecay0/upvg/vertex 1 two 3"
+    script, plan = [], []
+    for (u, steps) in vlib.edge_cover_paths(g):
+        script.append("RESET")
+        for (n_, a_, d_) in steps:
+            script.append(cmd(n_, a_))
+        plan.append(steps)
+    rc, out = vlib.sh([exe], input="\n".join(script) + "\n", timeout=300, env=env, drop_stderr=True)
+    obs = [json.loads(l) for l in out.splitlines() if l.startswith('{"n"')]
+    if rc != 0 or len(obs) != sum(len(p) for p in plan):
+        ck.violation("messenger:vertex:crash", "the vertex-command replay died (rc=%s)" % rc, {"mode": "messenger"})
+        return
+    adj = vlib.graph_adj(g)
+    i = 0
+    for steps in plan:
+        cur = g["init"][0]
+        for (n_, a_, d_) in steps:
+            o = obs[i]
+            i += 1
+            ck.add("vertex_commands_executed")
+            allowed = [g["nodes"][dd] for (nn, aa, dd) in adj[cur] if nn == n_ and aa == a_]
+            ok = [st for st in allowed if list(st["vtx"]) == o["vtx"] and (st["res"] == "ui-rejected") == (o["rc"] != 0)]
+            if not ok:
+                ck.violation("messenger:vertex:%s" % (a_[3] if n_ == "Vertex" else n_),
+                             "command line %r (command layer returned %d) leaves the source position at %s um; G4Vertex.tla allows %s" % (
+                                 cmd(n_, a_), o["rc"], o["vtx"], [list(st["vtx"]) for st in allowed]), {"mode": "messenger", "commands": [cmd(x, y) for (x, y, _) in steps]})
+                break
+            # follow the successor the code chose
+            cur = [dd for (nn, aa, dd) in adj[cur] if nn == n_ and aa == a_ and list(g["nodes"][dd]["vtx"]) == o["vtx"]
+                   and (g["nodes"][dd]["res"] == "ui-rejected") == (o["rc"] != 0)][0]
+        else:
+            continue
+        i = sum(len(p) for p in plan[:plan.index(steps) + 1])
 
 
 def absorb(ck, res, results):
